@@ -65,12 +65,19 @@ CONTRACTS = {
         ],
     },
     (O, 'BaseOPB._check_and_update'): {
-        'assumed': 'validator loop of BaseOPB (prefix max): contract assumed here, exercised by the bounded tier of C10/C04',
+        'property': ['C10', 'C04'],
         'params': {'data': 'con'},
         'requires': ['self._numvar >= 0'],
+        # refused iff some literal is 0, some coefficient negative, or the operator is not >= / ==
         'raises': {'ValueError': "thaszero(con_terms(data)) or not tnonneg(con_terms(data)) or not (con_op(data) == '>=' or con_op(data) == '==')"},
         'modifies': ['self._numvar'],
+        'loops': {0: {'inv': ['old(self._numvar) <= maxv', 'maxv <= zmax(old(self._numvar), tmaxabs(con_terms(data)))',
+                              'self._numvar == old(self._numvar)',
+                              'forall(lambda j: implies(0 <= j and j < _it, abs(tlit(con_terms(data), j)) <= maxv and tlit(con_terms(data), j) != 0 '
+                              'and tcoef(con_terms(data), j) >= 0))']}},
+        # the declared count becomes the largest variable mentioned (C10)
         'ensures': ['self._numvar == zmax(old(self._numvar), tmaxabs(con_terms(data)))'],
+        'ensures_on_raise': [],
     },
     (O, 'BaseOPB.add_constraint'): {
         'property': ['C04', 'C08', 'C10', 'C19'],
